@@ -174,6 +174,10 @@ func (loader *Loader) LoadFromData(data []byte) (*T, error) {
 // LoadFromDataWithPath takes the OpenAPI document data in bytes and a path where the resolver can find referred
 // elements and returns a *T with all resolved data or an error if unable to load data or resolve refs.
 func (loader *Loader) LoadFromDataWithPath(data []byte, location *url.URL) (*T, error) {
+	if location == nil {
+		// no location to resolve against: the data is all there is
+		return loader.LoadFromData(data)
+	}
 	loader.resetVisitedPathItemRefs()
 	return loader.loadFromDataWithPathInternal(data, location)
 }
